@@ -558,12 +558,23 @@ impl<'a> Gen<'a> {
             }
         }
         self.depth_call -= 1;
+        // spans the steps created and still hold: some of them are locals of the panicking code
+        let created: Vec<u32> = steps
+            .iter()
+            .filter_map(|op| match op {
+                Op::Root { l, .. } | Op::Child { l, .. } | Op::ChildLocal { l, .. } | Op::Noop { l } | Op::RootFromCtx { l, .. } => Some(*l),
+                _ => None,
+            })
+            .collect();
+        let alive_now = self.prog.model.alive_spans();
+        let mut drops: Vec<u32> = created.into_iter().filter(|l| alive_now.contains(l) && !self.reserved.contains(l)).filter(|_| self.rng.chance(2, 3)).collect();
+        drops.reverse();
         self.nested_floor = saved_floor;
         self.prog.model = saved_model;
         let keep: Vec<usize> = self.ctx_ops.iter().copied().filter(|f| !saved_ctx_ops.contains(f)).collect();
         self.ctx_ops = saved_ctx_ops;
         self.pending_ctx = keep;
-        Some(Op::Unwind { steps })
+        Some(Op::Unwind { steps, drops })
     }
 
     /// A closure-taking operation whose closure itself runs a few operations.
